@@ -71,6 +71,15 @@ func genScenario(t *rapid.T) *modsim.Scenario {
 				// the service worker fails and sits in its back-off wait (longer than the promptness bound) when the module stops
 				w.Fail, w.BackoffMS, w.HoldUS = true, 6000, 200
 			}
+			if (w.Kind == "task" || w.Kind == "schedtask") && rapid.IntRange(0, 2).Draw(t, "earlier_runs") == 0 {
+				// the task has been executed before (once or twice, queued again each time): the run that meets the stop
+				// is a later one
+				w.Requeue = rapid.IntRange(1, 2).Draw(t, "requeue")
+			}
+			if w.Kind == "service" && !w.Fail && rapid.Bool().Draw(t, "svcreturns") {
+				// every way a service worker's function can end: the restart loop must notice the stop in each of them
+				w.Returns = rapid.SampledFrom([]string{"restartnow", "ctxcanceled", "error"}).Draw(t, "svcreturn")
+			}
 			if rapid.IntRange(0, 5).Draw(t, "panics") == 0 && !w.Fail && !strings.HasPrefix(w.Kind, "sig_mt") {
 				// (signalled microtasks run in the caller's own goroutine: a panic there is not managed code)
 				// the item ends in a panic instead of returning: it has ended all the same and must be discounted
